@@ -10,6 +10,7 @@ handler, `parse_qsl` — stdlib, validated by stream `urlencode-kernels`), Model
 import WzVerif.Lemmas.Urlencode
 import WzVerif.Lemmas.FormOptions
 import WzVerif.Lemmas.Multipart
+import WzVerif.Lemmas.MultipartCodec
 namespace Wz.Props.C02
 open Wz
 
@@ -83,9 +84,13 @@ substring `%22` (CR / LF are excluded one level up, by the header line syntax):
 theorem parseOptions_disposition (n : List Char) (f : Option (List Char)) (hn : FormOptions.NameOk n)
     (hf : ∀ x, f = some x → FormOptions.NameOk x) :
     FormOptions.parseOptionsHeader (FormOptions.dispositionValue n f) =
-      .ok ("form-data".toList,
-        ("name".toList, n) :: (match f with | none => [] | some x => [("filename".toList, x)])) :=
+      .ok ("form-data".toList, ("name".toList, n) :: FormOptions.filenameOpt f) :=
   FormOptions.parseOptions_disposition_lemma n f hn hf
+
+/-- `filenameOpt f` is the pair `("filename", f)` when there is a filename and nothing otherwise -/
+theorem filenameOpt_eq :
+    FormOptions.filenameOpt none = [] ∧
+    ∀ x, FormOptions.filenameOpt (some x) = [("filename".toList, x)] := ⟨rfl, fun _ => rfl⟩
 
 example : FormOptions.NameOk "a;b=\"".toList = False ∧ FormOptions.NameOk "a; b=c é%2".toList := by
   constructor
@@ -177,20 +182,53 @@ theorem decode_encode_events_full_false :
   revert this
   decide +kernel
 
+/-- **decode_encode.** For every boundary without CR / LF and every list of parts satisfying the
+decidable predicate `ValidPart` (a name; names / filenames free of `"`, `\`, `%22`, CR, LF — any
+other Unicode text; `isFile` iff there is a filename; extra headers that fit on a header line and
+are not Content-Disposition; a payload none of whose lines starts with `--boundary` — CR/LF runs,
+`--`, near-copies of the boundary, arbitrary binary are all allowed; any mix and order of fields
+and files, repeated names, empty payloads):
+encoding the parts with `MultipartEncoder` the way `stream_encode_multipart` does (Preamble(b""), per
+part Field/File + Data, Epilogue(b"")) succeeds, and decoding the result with `MultipartDecoder`
+raises nothing and returns exactly the parts, in order, with byte-exact payloads — each part's headers
+being the Content-Disposition header the encoder wrote followed by the part's own headers. -/
+theorem decode_encode {bnd : Bytes} (hb : Multipart.BoundaryOk bnd) (parts : List Multipart.Part)
+    (hv : ∀ p ∈ parts, Multipart.ValidPart bnd p) :
+    ∃ body, Multipart.encodeAll bnd parts = .ok body ∧
+      (Multipart.decodeChunks bnd none none [body]).err = none ∧
+      Multipart.partsOf (Multipart.decodeChunks bnd none none [body]).events =
+        parts.map Multipart.decodedPart :=
+  ⟨Multipart.encBody bnd parts, Multipart.decode_encode_lemma hb parts hv⟩
+
+/-- `decodedPart` only adds the Content-Disposition header in front -/
+theorem decodedPart_eq (p : Multipart.Part) :
+    (Multipart.decodedPart p).isFile = p.isFile ∧ (Multipart.decodedPart p).name = p.name ∧
+    (Multipart.decodedPart p).filename = p.filename ∧ (Multipart.decodedPart p).payload = p.payload ∧
+    (Multipart.decodedPart p).headers =
+      ("Content-Disposition".toList, FormOptions.dispositionValue (p.name.getD []) p.filename) :: p.headers :=
+  ⟨rfl, rfl, rfl, rfl, rfl⟩
+
+/-- non-vacuity: a field with a Unicode name and CRLF / dash / near-boundary payload, and a file with
+a `;` in its filename, an extra header and a binary payload, are valid for boundary `bound` -/
+example :
+    Multipart.BoundaryOk (Multipart.str "bound") ∧
+    Multipart.ValidPart (Multipart.str "bound")
+      ⟨false, some "é name".toList, none, [], Multipart.str "\r\n\r\n--boun\r\n--bounX\r"⟩ ∧
+    Multipart.ValidPart (Multipart.str "bound")
+      ⟨true, some "f".toList, some "a;b.png".toList, [("Content-Type".toList, "image/png".toList)],
+        [0, 255, 13, 10, 45, 45]⟩ ∧
+    ¬ Multipart.ValidPart (Multipart.str "bound")
+      ⟨false, some "q\"q".toList, none, [], []⟩ := by
+  decide +kernel
+
 /-
--- OPEN: decode_encode — for every boundary (`BoundaryOk`, non-empty) and list of parts satisfying
--- the decidable `Valid` predicate (names / filenames `NameOk` and free of CR / LF; header names
--- without ':' and leading/trailing white space, not starting with SP / TAB, values stripped, no
--- CR / LF; `PayloadOk bnd payload`; every part encoded as Field/File + one Data event):
---   partsOf (decodeChunks bnd none none [encodeAll bnd parts]).events = expected parts
--- (the decoded headers are the Content-Disposition header followed by the part's own headers).
--- Proved: the per-phase facts the statement is made of — `parseOptions_disposition`
--- (Content-Disposition), `decode_encode_data` / `decode_encode_data_empty` (payload framing, for
--- every chunking), `encoder_writes_disposition`; and C01's search lemmas. Missing: the glue over the
--- header block (`_parse_headers` on the encoder's header lines: splitlines / strip / UTF-8 /
--- partition) and over the sequence of parts. The statement over arbitrary Data chunkings is false
--- (`decode_encode_events_full_false`, finding F02a). The whole statement is exercised on the real
--- code by streams `encoder-events` and `client-roundtrip`.
+-- OPEN: decode_encode for every chunking of the body (together with C01's
+-- `decode_chunk_independent`, which is OPEN): proved here for the single-shot decode
+-- (`decode_encode`) and, for every chunking, for the payload phase of each part
+-- (`decode_encode_data`, `decode_encode_data_empty`). The statement over arbitrary Data chunkings of
+-- a part is false (`decode_encode_events_full_false`, finding F02a). The whole statement is
+-- exercised on the real code, with chunking, by streams `encoder-events`, `client-roundtrip` and by
+-- C01's `decoder-splits` / `formparser-bufsize`.
 -/
 
 end Wz.Props.C02
